@@ -5,4 +5,5 @@ CONSTANTS Inf = 7
   Handlers = {"p"}
   MaxTruth = 14
   MaxDeliver = 24
+  Restarts = FALSE
 CHECK_DEADLOCK FALSE
